@@ -240,6 +240,36 @@ def run(ctx, pid, bdir=None):
                             why = "parameter %s of the input is missing in the export" % k
                         elif g0["params"].get(k) is not None and c13.num(g0["params"][k]) is not None and abs(c13.num(g0["params"][k]) - c13.num(g1["params"][k])) > 1e-6:
                             why = "parameter %s: input %s, export %s" % (k, g0["params"][k], g1["params"][k])
+            elif kind == "cxx":
+                # a small C++ program against the library headers / sources of /repo, built with ASan+UBSan
+                src = os.path.join(DIR, case["source"])
+                exe_ = os.path.join(ctx.scratch, "dir_%s.bin" % case["id"])
+                cmd = ["g++", "-std=c++17", "-O1", "-g", "-fsanitize=address,undefined", "-fno-sanitize-recover=all", "-I" + os.path.join(vlib.REPO, "lib"), "-I" + DIR]
+                cmd += case.get("flags", []) + [src]
+                if case.get("adj"):
+                    cmd += [os.path.join(vlib.REPO, "lib/gnu_gama/adj", f_) for f_ in ("icgs.cpp", "adj_input_data.cpp", "adj.cpp")]
+                cmd += ["-o", exe_]
+                replay["source"] = open(src).read()
+                pc = subprocess.run(cmd, capture_output=True, timeout=600)
+                if pc.returncode != 0:
+                    why = "does not compile against /repo/lib: %s" % pc.stderr.decode("latin-1")[-400:]
+                for run_ in ([] if why else case.get("runs", [{"args": []}])):
+                    rc, out, err = _run([exe_] + run_.get("args", []), ctx.scratch)
+                    replay["cmd"] = os.path.basename(src) + " " + " ".join(run_.get("args", []))
+                    replay["stdout"] = out[-1500:]; replay["stderr"] = err[-1500:]
+                    u = _unsafe(rc, out, err)
+                    if u:
+                        why = "%s %s: %s" % (case["source"], " ".join(run_.get("args", [])), u); break
+                    if run_.get("rc") is not None and rc != run_["rc"]:
+                        why = "%s %s: exit status %d, expected %d: %s" % (case["source"], " ".join(run_.get("args", [])), rc, run_["rc"], (out + err).strip()[-200:]); break
+                    for rx in run_.get("require", []):
+                        if not re.search(rx, out + err, re.S):
+                            why = "%s %s: the output does not contain /%s/: %s" % (case["source"], " ".join(run_.get("args", [])), rx, (out + err).strip()[-300:]); break
+                    for rx in run_.get("forbid", []):
+                        if re.search(rx, out + err, re.S):
+                            why = "%s %s: the output contains /%s/" % (case["source"], " ".join(run_.get("args", [])), rx); break
+                    if why:
+                        break
             elif kind == "deterministic":
                 # the same command line with the heap filled by different bytes (glibc MALLOC_PERTURB_): reading memory that was
                 # never written shows up as different results
